@@ -53,6 +53,40 @@ def request(P, rule, kind, s, i):
     return lib.py_parse_all(P, rule, s)
 
 
+class _Abort(BaseException):
+    """raised from a trace function inside the library: an exception that is not ParseError (KeyboardInterrupt, a timeout
+    handler, RecursionError ...) unwinding a request half-way"""
+
+
+def aborted_request(P, rule, kind, s, i, n):
+    """runs the request but raises _Abort at the n-th function call made inside abnf/parser.py; returns True when the
+    request was really cut short"""
+    import sys
+    count = [0]
+    fname = P.__file__
+
+    def tracer(frame, event, arg):
+        if event == "call" and frame.f_code.co_filename == fname:
+            count[0] += 1
+            if count[0] == n:
+                raise _Abort()
+        return None
+
+    old = sys.gettrace()
+    oldhook = sys.unraisablehook
+    # an abort that lands in the finalisation of a generator is swallowed by the interpreter ("Exception ignored in"): quiet
+    sys.unraisablehook = lambda *a: None
+    sys.settrace(tracer)
+    try:
+        request(P, rule, kind, s, i)
+        return False
+    except _Abort:
+        return True
+    finally:
+        sys.settrace(old)
+        sys.unraisablehook = oldhook
+
+
 def qline(kind, s, i):
     c = lib.cps(s)
     sp = (" " + c) if c else ""
@@ -100,6 +134,7 @@ def run(ctx):
     hits_total = 0
     evicting = 0
     slow_skipped = 0
+    aborts = 0
     samples = []
     try:
         for gi in range(n_gr + len(PRESETS)):
@@ -158,6 +193,13 @@ def run(ctx):
                     for r_ in (reps if rng.random() < 0.5 else [rng.choice(reps)]):
                         r_.lparse_cache.max_size = lim
                     script.append(("limit-live", lim))
+                elif u < 0.32:
+                    # an earlier attempt (of this or another request) abandoned half-way by a foreign exception
+                    qa = q if rng.random() < 0.6 else rng.choice(reqs)
+                    na = rng.choice([2, 3, 5, 8, 13, 21, 34, 55, 89])
+                    if aborted_request(P, rules[0], qa[0], qa[1], qa[2], na):
+                        aborts += 1
+                    script.append(("abort",) + tuple(qa) + (na,))
                 got = request(P, rules[0], *q)
                 script.append(("req",) + q)
                 evals += 1
@@ -190,11 +232,11 @@ def run(ctx):
                     csamples.append({"grammar": gr, "request": q, "implementation": got, "model": ln})
     ctx.corr_samples = csamples
     ctx.coverage.update({
-        "slow_grammars_skipped": slow_skipped,
+        "slow_grammars_skipped": slow_skipped, "requests_abandoned_half_way": aborts,
         "evaluations": evals,
         "distinct_nontrivial": evicting,
         "rule": "per generated grammar: 8-30 requests (lparse/parse/parse_all over 5-9 sources that share suffixes, random offsets) interleaved with clear_caches() "
-                "(12%) and live limit changes (10%), initial limit None/1/2/3 via ParseCache.max_cache_size; each result compared with the same request on a cold "
+                "(12%), live limit changes (10%) and attempts abandoned half-way by a foreign exception raised at the n-th call inside the library (10%), initial limit None/1/2/3 via ParseCache.max_cache_size; each result compared with the same request on a cold "
                 "unlimited twin and with the cache-free model; non-trivial = histories run under a finite limit",
         "samples": samples, "histories": n_gr, "cache_hits_observed": hits_total, "disagreements_model_vs_impl": dis,
     })
@@ -217,6 +259,8 @@ def replay(rp):
             elif st[0] == "limit-live":
                 for r_ in reps:
                     r_.lparse_cache.max_size = st[1]
+            elif st[0] == "abort":
+                aborted_request(P, rules[0], st[1], st[2], st[3], st[4])
             else:
                 last = request(P, rules[0], st[1], st[2], st[3])
     finally:
